@@ -177,6 +177,16 @@ def run(run, thorough):
         res = sandbox.execute_concurrent(scn, steps, sched)
         scn2 = dict(scn, steps=steps)
         judge(run, scn2, res, victims, pre, shape if shape != 'random' else sched, 'lockstep-2')
+    # --- lock step with a FAILING move in process 0 (EACCES on every move it attempts): its clean-up runs interleaved with a second
+    # trash-put of the same name; whatever process 0 undoes must be its own reservation only
+    import errno
+    for pre in (['empty', 'orphan_l', 'info_only'] if not thorough else pres):
+        kinds = rng.choice([('f', 'f'), ('d', 'f'), ('f', 'd')])
+        for shape, sched in schedules_systematic(nops=10):
+            scn, steps, victims = make_scn(2, kinds, pre)
+            steps[0]['plan'] = {'faults': {'move': {'errno': errno.EACCES}}}
+            res = sandbox.execute_concurrent(scn, steps, sched)
+            judge(run, dict(scn, steps=steps), res, victims, pre, 'failing-move:' + shape, 'lockstep-2-failing-move')
     # --- 3 processes, random schedules
     for _ in range(15 if not thorough else 200):
         pre = rng.choice(pres)
